@@ -18,6 +18,10 @@ type flowBuilder struct {
 	nodeBuilder        *graphNodeBuilder
 	processorManager   *processors.ProcessorManager
 	resourceManagement *resources.ResourceManagement
+	// flows whose connections are being built right now (the flow under construction and
+	// the flows being incorporated into it): a flow that refers back to one of them would
+	// be incorporated without end
+	flowsInProgress map[string]struct{}
 }
 
 // newFlowBuilder creates a new instance of a flow builder.
@@ -31,6 +35,7 @@ func newFlowBuilder(filterTree internaltypes.FilterTreeI,
 		processorManager:   processorManager,
 		resourceManagement: resourceManagement,
 		flowReps:           flowReps,
+		flowsInProgress:    map[string]struct{}{},
 	}
 
 	builder.nodeBuilder = newGraphNodeBuilder(builder.flowReps, builder.processorManager)
@@ -68,6 +73,9 @@ func (fb *flowBuilder) buildFlow(flowRep internaltypes.FlowRepI) error {
 	log.Info().Msgf("Building flow %s", flowRep.GetName())
 
 	flow := NewFlow(fb.nodeBuilder, flowRep, fb.resourceManagement)
+
+	fb.flowsInProgress[flowRep.GetName()] = struct{}{}
+	defer delete(fb.flowsInProgress, flowRep.GetName())
 
 	// process request and response connections
 	if err := fb.buildConnections(
@@ -254,6 +262,12 @@ func (fb *flowBuilder) incorporateFlow(flowName string, targetFlowDir *FlowDirec
 	if !exists {
 		return fmt.Errorf("flow '%s' not found", flowName)
 	}
+
+	if _, inProgress := fb.flowsInProgress[flowName]; inProgress {
+		return fmt.Errorf("circular reference between flows: flow '%s' refers back to itself", flowName)
+	}
+	fb.flowsInProgress[flowName] = struct{}{}
+	defer delete(fb.flowsInProgress, flowName)
 
 	// build connections from the source flow and add all to target FlowDirection
 	connections := flowRep.GetFlow().GetFlowConnections(targetFlowDir.flowType)
